@@ -328,6 +328,11 @@ impl<'r> VGen<'r> {
         match self.rng.below(if self.opts.pure { 15 } else { 20 }) {
             // component-wise arithmetic, the right operand sometimes a scalar (replicated) or a longer vector (truncated)
             0 | 1 | 2 if t != T::Bool => {
+                // a vector of a lower kind next to a bare literal of kind t: computed in (t, n) since fix 40c6233
+                // (was: in a vector of the literal type, which no exporter can name)
+                if n > 1 && (t == T::Int || t == T::Float) && self.rng.chance(1, if self.opts.pure { 3 } else { 6 }) {
+                    return self.lower_vec_op_literal(t, n, d, scope, false);
+                }
                 let op = if is_int { *self.rng.pick(&["+", "-", "*", "/", "%", "&", "|", "^"]) } else { *self.rng.pick(&["+", "-", "*", "/"]) };
                 let l = self.exact(t, n, d, scope);
                 let r = match self.rng.below(5) {
@@ -335,7 +340,7 @@ impl<'r> VGen<'r> {
                     1 if n > 1 && n < 4 => self.exact(t, n + 1, d, scope),
                     2 if t == T::Float && !matches!(op, "%") => {
                         let ot = if self.rng.chance(1, 2) { T::Int } else { T::Uint };
-                        self.exact_nonliteral(ot, n, d, scope)
+                        self.exact(ot, n, d, scope)
                     }
                     _ => self.exact(t, n, d, scope),
                 };
@@ -380,6 +385,13 @@ impl<'r> VGen<'r> {
             }
             10 => {
                 let c = self.exact(T::Bool, 1, d, scope);
+                // a vector of a lower kind and a bare literal of kind t as the two arms: typed (t, n) since fix c05bffa
+                if n > 1 && (t == T::Int || t == T::Float) && self.rng.chance(1, 3) {
+                    let lower = if t == T::Int { T::Bool } else { *self.rng.pick(&[T::Bool, T::Int, T::Uint]) };
+                    let v = self.exact(lower, n, d, scope);
+                    let lit = if t == T::Int { self.rng.pick(&["0", "1", "7", "2147483647"]).to_string() } else { self.rng.pick(&["0.0", "0.5", "1.5", "100.0"]).to_string() };
+                    return if self.rng.chance(1, 2) { format!("({} ? {} : {})", c, v, lit) } else { format!("({} ? {} : {})", c, lit, v) };
+                }
                 format!("({} ? {} : {})", c, self.exact(t, n, d, scope), self.exact(t, n, d, scope))
             }
             // swizzle of an expression
@@ -389,10 +401,14 @@ impl<'r> VGen<'r> {
                 format!("{}.{}", self.atom(t, m, d, scope), idx)
             }
             13 if t == T::Bool => {
+                if n > 1 && self.rng.chance(1, if self.opts.pure { 3 } else { 5 }) {
+                    let k = if self.rng.chance(1, 2) { T::Int } else { T::Float };
+                    return self.lower_vec_op_literal(k, n, d, scope, true);
+                }
                 let k = self.kind(false);
                 let op = *self.rng.pick(&["<", "<=", ">", ">=", "==", "!="]);
                 let l = self.exact(k, n, d, scope);
-                let r = if n > 1 && self.rng.chance(1, 3) { self.exact_nonliteral(k, 1, d, scope) } else { self.exact(k, n, d, scope) };
+                let r = if n > 1 && self.rng.chance(1, 3) { self.exact(k, 1, d, scope) } else { self.exact(k, n, d, scope) };
                 format!("({} {} {})", l, op, r)
             }
             14 if t == T::Bool => {
@@ -497,8 +513,29 @@ impl<'r> VGen<'r> {
         })
     }
 
-    /// exact, but never a bare literal (a literal next to a vector of a lower kind makes the type checker compute in a
-    /// literal *vector* type, which the exporter cannot name: known finding)
+    /// `vector-of-a-lower-kind op bare-literal-of-kind-t` (bool vector next to an int literal; bool / int / uint vector next
+    /// to an unsuffixed float literal): the operation is done in (t, n) since fix 40c6233 — `(int3)b + (int3)1`; `compare`
+    /// gives the comparison (a bool vector) instead of the arithmetic result
+    fn lower_vec_op_literal(&mut self, t: T, n: usize, d: u32, scope: &[VarInfo], compare: bool) -> String {
+        let lower = if t == T::Int { T::Bool } else { *self.rng.pick(&[T::Bool, T::Int, T::Uint]) };
+        let v = self.exact(lower, n, d, scope);
+        let lit = if t == T::Int {
+            self.rng.pick(&["0", "1", "2", "3", "7", "31", "2147483647"]).to_string()
+        } else {
+            self.rng.pick(&["0.0", "0.5", "1.5", "2.0", "3.25", "100.0"]).to_string()
+        };
+        let op = if compare {
+            *self.rng.pick(&["<", "<=", ">", ">=", "==", "!="])
+        } else if t == T::Int {
+            *self.rng.pick(&["+", "-", "*", "/", "%", "&", "|", "^", "<<", ">>"])
+        } else {
+            *self.rng.pick(&["+", "-", "*", "/"])
+        };
+        if self.rng.chance(1, 3) { format!("({} {} {})", lit, op, v) } else { format!("({} {} {})", v, op, lit) }
+    }
+
+    /// exact, but never a bare literal (built-in / template arguments: a literal argument takes part in overload
+    /// resolution and template deduction with its literal type)
     fn exact_nonliteral(&mut self, t: T, n: usize, d: u32, scope: &[VarInfo]) -> String {
         let ps = self.places(t, n, scope, false);
         if !ps.is_empty() {
@@ -518,7 +555,7 @@ impl<'r> VGen<'r> {
                         let v = self.rng.pick(&vars).clone();
                         if *t != T::Bool && self.rng.chance(1, 2) {
                             let op = *self.rng.pick(&["+", "-", "*"]);
-                            let r = if self.rng.chance(1, 2) { self.rng.pick(&vars).clone() } else { self.exact_nonliteral(*t, 1, 0, scope) };
+                            let r = if self.rng.chance(1, 2) { self.rng.pick(&vars).clone() } else { self.exact(*t, 1, 0, scope) };
                             format!("({} {} {})", v, op, r)
                         } else {
                             v
